@@ -230,6 +230,27 @@ def main():
     query("U.collector-loop-bound", [cutoff], "unsat", need_max=False)
     for wi, (wname, wt) in enumerate(panic_groups.items()):
         query("W." + wname, [z3.Or(wt) if wt else z3.BoolVal(False)], "unsat", need_max=False)
+    # C03, "nodes finishing in any order": every pair of non-root node invocations of different pipelines can be in
+    # progress at the same time (so a node may wait for any such node of another pipeline without hanging Send).
+    # These are existence queries: unsat means the dispatch serialises the two pipelines.
+    if "--overlap" in sys.argv:
+        pipes = sorted({p for (p, i) in calls})
+        depth = {p: max(i for (q, i) in calls if q == p) for p in pipes}
+        for p, q in itertools.combinations(pipes, 2):
+            for i in sorted({1, depth[p]}):
+                for j in sorted({1, depth[q]}):
+                    if i < 1 or j < 1 or (p, i) not in calls or (q, j) not in calls or (p, i) not in rets or (q, j) not in rets:
+                        continue
+                    ov = []
+                    for (ca, _) in calls[(p, i)]:
+                        for (ra, _) in rets[(p, i)]:
+                            for (cb, _) in calls[(q, j)]:
+                                for (rb, _) in rets[(q, j)]:
+                                    ov.append(z3.And(x[ca["id"]], x[ra["id"]], x[cb["id"]], x[rb["id"]], c[ca["id"]] < c[rb["id"]], c[cb["id"]] < c[ra["id"]],
+                                                     c[ca["id"]] < c[ra["id"]], c[cb["id"]] < c[rb["id"]]))
+                    name = "C.overlap.%d:%d.%d:%d" % (p, i, q, j)
+                    query(name, [z3.Not(X), z3.Or(ov)], "sat")
+                    results[name]["pair"] = [p, i, q, j]
     # C01
     roots_missing = []
     for p in range(P):
